@@ -231,6 +231,10 @@ inproc_pipe_close(void *arg)
 	inproc_pipe *pipe = arg;
 	inproc_pair *pair = pipe->pair;
 
+	if (pair == NULL) {
+		// pipe creation failed before it was paired
+		return;
+	}
 	for (int i = 0; i < 2; i++) {
 		inproc_queue *queue = &pair->queues[i];
 		nni_mtx_lock(&queue->lock);
@@ -377,13 +381,17 @@ inproc_accept_clients(inproc_ep *srv)
 			    ((rv = nni_pipe_alloc_listener(
 			          (void **) &spipe, srv->listener)) != 0)) {
 
+				// (A pipe that was allocated owns its reference
+				// on the pair: close and fini need to find it.)
 				if (cpipe != NULL) {
+					cpipe->pair = pair;
 					nni_pipe_close(cpipe->pipe);
 					nni_pipe_rele(cpipe->pipe);
 				} else {
 					nni_refcnt_rele(&pair->ref);
 				}
 				if (spipe != NULL) {
+					spipe->pair = pair;
 					nni_pipe_close(spipe->pipe);
 					nni_pipe_rele(spipe->pipe);
 				} else {
